@@ -3,6 +3,7 @@
   `Alloc.search` is `allocate_jit_memory_unix` as a function of the kernel's answers to the
   hinted mmap calls (the oracle script); the theorems quantify over *all* scripts.
 -/
+import InjModel.Generated.Layout
 import InjModel.Lemmas.Alloc
 import InjModel.Props.C01
 import InjModel.Props.C15
@@ -67,6 +68,10 @@ example : search 0x500000000000 134217728 4096 12 [some 0x7f0000000000, none, so
 example : (search 0x500000000000 134217728 4096 12 [some 0x500008000000]).2 =
     [AEvent.mmap 0x4ffff8000000 12 (some 0x500008000000), AEvent.munmap 0x500008000000 12] := by decide
 
+/-- the model's state is complete for the back ends: `injector_core` declares no process-wide or
+    thread-local mutable state (regenerated from the source on every run) -/
+theorem C11_state_modelled : Generated.Layout.coreStatics = [] := by decide
+
 end Inj.Props
 
 #print axioms Inj.Props.C11_consts_found
@@ -75,3 +80,4 @@ end Inj.Props
 #print axioms Inj.Props.C11_probe_bound
 #print axioms Inj.Props.C11_reach_x86
 #print axioms Inj.Props.C11_reach_a64
+#print axioms Inj.Props.C11_state_modelled
